@@ -518,11 +518,14 @@ const BAD_KINDS: [&str; 16] = [
 
 fn gen_bad(rng: &mut Rng) -> String {
     format!(
-        "bad kind={} files={} j={} q={}",
+        "bad kind={} files={} j={} q={} special={} sfirst={} extra={}",
         rng.pick(&BAD_KINDS),
         rng.chance(1, 4) as u8,
         if rng.chance(1, 2) { 1 } else { 4 },
-        rng.chance(1, 4) as u8
+        rng.chance(1, 4) as u8,
+        rng.pick(&["-", "-", "-V", "--version", "-h", "--help"]),
+        rng.chance(1, 2) as u8,
+        rng.pick(&["-", "-", "-i", "-n", "--hidden"])
     )
 }
 
@@ -540,9 +543,18 @@ fn run_bad(case: &str, ctx: &mut Ctx, drv: &mut Driver, rep: &mut Report) {
     std::fs::create_dir_all(t.join("sub")).unwrap();
     std::fs::write(t.join("a.txt"), "needle one\nplain\n").unwrap();
     std::fs::write(t.join("sub/b.txt"), "needle two\n").unwrap();
+    // the invalid argument combined with a special mode (help / version, before or after it) and with other
+    // valid flags: errors of the flag parser win over the special modes (`parse_low` checks them first)
+    let low_level = matches!(kind.as_str(), "flag" | "value-m" | "value-j" | "enc" | "sort" | "max-filesize");
+    let special = f.get("special").map_or("-", |v| v.as_str());
+    let special = if low_level && matches!(special, "-V" | "--version" | "-h" | "--help") { special } else { "-" };
+    let sfirst = f.get("sfirst").map_or(false, |v| v == "1");
+    let extra = f.get("extra").map_or("-", |v| v.as_str());
     let mut cmd = Command::new(&ctx.rg);
     cmd.current_dir(&dir).args(["--color", "never", "--no-config"]).arg(format!("-j{}", j));
     if q == "1" { cmd.arg("-q"); }
+    if matches!(extra, "-i" | "-n" | "--hidden") { cmd.arg(extra); }
+    if special != "-" && sfirst { cmd.arg(special); rep.branch("bad:with-special-mode-first"); }
     let mut pattern = Some("needle");
     let mut setup_err = false; // detected when the matcher is built (`args.matcher()?`), i.e. inside `search`
     match kind.as_str() {
@@ -564,6 +576,7 @@ fn run_bad(case: &str, ctx: &mut Ctx, drv: &mut Driver, rep: &mut Report) {
         "max-filesize" => { cmd.args(["--max-filesize", "1x"]); }
         _ => { rep.notes.push(format!("unparsable case: {}", case)); return; }
     }
+    if special != "-" && !sfirst { cmd.arg(special); rep.branch("bad:with-special-mode-last"); }
     // in --files mode a positional argument is a path, so regex kinds only make sense when searching
     let files_mode = files_mode && !setup_err && pattern.is_some();
     if files_mode {
@@ -821,7 +834,7 @@ fn main() {
         "fault: generated trees (0-8 entries: healthy matching/non-matching files, mode-000 files and directories searched \
          with privileges dropped, dangling symlinks with and without -L, explicit missing / dangling paths, files removed or \
          truncated by a --pre script between listing and opening) x modes standard/-c/-l/--json/--passthru/--files x -j1/-j4 x \
-         --quiet/--sort/--stats/--no-messages/implicit path/-m0; bad: 16 kinds of invalid arguments; pipe: stdout closed after k \
+         --quiet/--sort/--stats/--no-messages/implicit path/-m0; bad: 16 kinds of invalid arguments, the flag-parser ones also combined with -h/--help/-V/--version (before and after) and other valid flags; pipe: stdout closed after k \
          bytes (k sampled; every k <= 200 in thorough) on outputs larger than the pipe, -j1/-j4, block/line buffered, with and \
          without a reported fault, with and without --pre. Non-trivial: a fault together with at least one healthy result and \
          >= 2 entries; every invalid-argument case; a pipe case in which rg must run into EPIPE. Distinct by case text. \
@@ -849,7 +862,14 @@ fn main() {
         }
         for kind in BAD_KINDS {
             for files in 0..2 {
-                run_case(&format!("bad kind={} files={} j=1 q=0", kind, files), &mut ctx, &mut drv, &mut rep);
+                run_case(&format!("bad kind={} files={} j=1 q=0 special=- sfirst=0 extra=-", kind, files), &mut ctx, &mut drv, &mut rep);
+            }
+        }
+        for kind in ["flag", "value-m", "value-j", "enc", "sort", "max-filesize"] {
+            for special in ["-V", "--version", "-h", "--help"] {
+                for sfirst in 0..2 {
+                    run_case(&format!("bad kind={} files=0 j=1 q=0 special={} sfirst={} extra=-n", kind, special, sfirst), &mut ctx, &mut drv, &mut rep);
+                }
             }
         }
         // pipe stream: sampled k, then (thorough) every k <= 200 for every configuration
